@@ -816,7 +816,6 @@ func c07history(g *Gen, variant, nsteps int, firstUnloaded bool, sizeOverride in
 	r := g.R
 	var steps []V
 	var prev []string
-	loadedOnce := false
 	if firstUnloaded {
 		steps = append(steps, Ls(I(2), VL(nil), VL(nil), VL(c07probes(r, nil, c07keys(r, 0, 5), 5))))
 	}
@@ -832,9 +831,8 @@ func c07history(g *Gen, variant, nsteps int, firstUnloaded bool, sizeOverride in
 		vv := c07vals(r, variant, len(kk))
 		kind := r.Intn(2)
 		x := r.Intn(100)
-		mustSucceed := variant == 3 && !loadedOnce // Str2Str{}: see the note in corpus/C07/defects.cases
 		switch {
-		case x < 12 && !mustSucceed: // failed load: lengths differ
+		case x < 12: // failed load: lengths differ
 			kind = 0
 			switch r.Intn(4) {
 			case 0:
@@ -859,9 +857,6 @@ func c07history(g *Gen, variant, nsteps int, firstUnloaded bool, sizeOverride in
 		case x < 20: // load of zero keys
 			kk, vv = nil, nil
 		}
-		if len(kk) == len(vv) {
-			loadedOnce = true
-		}
 		budget := 10
 		if len(kk) > 100 {
 			budget = len(kk) / 8
@@ -880,7 +875,7 @@ func init() {
 		Gen: func(g *Gen) {
 			r := g.R
 			// never-loaded and empty instances, every documented constructor
-			for _, variant := range []int{0, 1, 2, 4} {
+			for _, variant := range []int{0, 1, 2, 3, 4} {
 				g.Add("unloaded", c07history(g, variant, 0, true, -1))
 				g.Add("unloaded+loads", c07history(g, variant, 2, true, -1))
 				g.Add("empty", c07history(g, variant, 1, false, 0))
@@ -900,7 +895,7 @@ func init() {
 			for i := 0; i < n; i++ {
 				variant := r.Intn(5)
 				nsteps := 1 + r.Intn(4)
-				g.Add(fmt.Sprintf("history/v%d", variant), c07history(g, variant, nsteps, variant != 3 && r.Intn(10) == 0, -1))
+				g.Add(fmt.Sprintf("history/v%d", variant), c07history(g, variant, nsteps, r.Intn(10) == 0, -1))
 			}
 			// large key sets: checked in Go against a Go map, summary line for the model side
 			bigs := []int{1000, 3000, 10000, 30000, 100000}
